@@ -206,7 +206,7 @@ def run_pairs(spec, res):
                     if bad:
                         res['refuted'] += 1
                         if eng.check3() == 'sat':
-                            m = eng.solver.model()
+                            m = eng.model()
                             res['cex'].append({'kind': 'construct', 'history': [rdrdrv.model_bytes(m, H['pa']).hex()], 'payload': db.payload_from_model(m).hex(),
                                                'checks': ['fields', 'total', 'decodable'], 'why': f"{a[0]} then {bid}: " + "; ".join(bad[:2]),
                                                'dedup': f"{a[0]}:{bid}:{bad[0][:30]}"})
@@ -219,7 +219,7 @@ def run_pairs(spec, res):
             eng = sym.Engine(max_paths=2)
             for path in eng.explore(fn0):
                 if path.kind == 'ret' and eng.check3() == 'sat':
-                    res['witnesses'].append({'kind': 'construct', 'payload': db.payload_from_model(eng.solver.model()).hex(),
+                    res['witnesses'].append({'kind': 'construct', 'payload': db.payload_from_model(eng.model()).hex(),
                                              'history': ["3ed0000000", "fe80"], 'checks': ['fields', 'total', 'decodable']})
                 break
     ch = tables_changed(base)
@@ -271,7 +271,7 @@ def run_reader2(spec, res):
             res['refuted'] += 1
             if eng.check3() == 'sat':
                 from . import h_C02
-                res['cex'].append(h_C02.case_of(eng.solver.model(), H, run, seq, mode, 'file', 4096, "messages of one reader differ from direct construction"))
+                res['cex'].append(h_C02.case_of(eng.model(), H, run, seq, mode, 'file', 4096, "messages of one reader differ from direct construction"))
         res.count('pairs')
     res.absorb_engine(eng)
 
